@@ -59,6 +59,7 @@ C01Clause(I, cf, ev) ==
      /\ ~Optimal(I, cf, ev.arg, [path |-> ev.path, idx |-> ev.idx]) THEN "not-optimal" ELSE ""
 C02Clause(I, cf, ev) == IF cf.tables /\ ~PathScoresMatchModel(I, cf, ev.path) THEN "path-score" ELSE ""
 C03Clause(I, cf, ev) ==
+  IF ev.op = "cwd" THEN "" ELSE      \* continue_with_distance returns nothing; the next re-match is checked
   LET complete == Len(ev.path) > 0 /\ ev.idx = NOf(ev) - 1
       sts == [j \in 1..Len(ev.path) |-> ev.path[j].st]
   IN IF ~Aligned(ev.path, ev.idx, complete) THEN "not-aligned"
